@@ -11,13 +11,15 @@ Theorems about the writer state machine (`Writer/Model.lean`, `Writer/Api.lean`)
    and builds through live and dead handles, Len/HasField, Err, Reset, Free, ill-typed calls; every
    order, every length) no call reaches a panic outcome of the model (nil state, slice bounds, table
    index): the stack/table well-formedness invariant of Lemmas/WriterInv.lean is kept by every
-   operation. `Copy`/`Merge` from an invalid source message is outside the alphabet of the theorem
-   (the Go type system only lets opened messages in; valid sources are covered by the stream).
-PARTIAL: `build_ok_parses` (a successful Build parses) is decided by the differential stream and the
-Go-side oracle (GARBAGE flag), not by a theorem.
+   operation. The alphabet includes `Copy`/`Merge` from ARBITRARY source bytes: the opened source's
+   index accessors are total by C02.message_accessors_safe (Lemmas/WriterCopySafe.lean).
+PARTIAL: `build_ok_parses` (a successful Build parses) is a theorem for the programs of value trees
+(`C01.written_tree_reads_back`) and of Copy/Merge (`C16.copy_preserves`); for arbitrary misuse
+programs it is decided by the differential stream and the Go-side oracle (GARBAGE flag).
 -/
 import SpecVerif.Writer.Api
 import SpecVerif.Lemmas.WriterInv
+import SpecVerif.Lemmas.WriterCopySafe
 namespace SpecVerif.C12
 open SpecVerif SpecVerif.Writer
 
@@ -116,14 +118,20 @@ theorem double_end (s : Sess) (h idx1 idx2 : Nat) (hd : Handle) (hh : s.handles[
 example : (run [.msg, .e 0 (encBool true), .f 0 1 (encBool true), .free, .free]).2 =
     [.ok, .badop, .ok, .ok, .ok] := by decide
 
-/-- no call of any program panics (programs without Copy from arbitrary bytes; any initial buffer) -/
-theorem no_panic (cs : List Call) (buf : Bytes) (hc : ∀ c ∈ cs, c.noCopy = true) :
-    ∀ o ∈ (run cs buf).2, o ≠ .panic :=
-  runFrom_no_panic (Sess.init buf) 0 cs (WInv_fresh buf false) hc
+/-- no call of any program panics (the whole call alphabet, Copy/Merge from arbitrary bytes included;
+any initial buffer) -/
+theorem no_panic (cs : List Call) (buf : Bytes) : ∀ o ∈ (run cs buf).2, o ≠ .panic :=
+  runFrom_no_panic_all (Sess.init buf) 0 cs (WInv_fresh buf false)
 
 /-- the same from any state a program can reach: after any prefix, any continuation is panic-free -/
-theorem no_panic_from (s : Sess) (idx : Nat) (cs : List Call) (hs : WInv s.w)
-    (hc : ∀ c ∈ cs, c.noCopy = true) : ∀ o ∈ (runFrom s idx cs).2, o ≠ .panic :=
-  runFrom_no_panic s idx cs hs hc
+theorem no_panic_from (s : Sess) (idx : Nat) (cs : List Call) (hs : WInv s.w) :
+    ∀ o ∈ (runFrom s idx cs).2, o ≠ .panic :=
+  runFrom_no_panic_all s idx cs hs
+
+/-- non-vacuity: Copy from garbage bytes (treated as an empty message) and, through an ended handle,
+from a real message (reports `closed`) -/
+example : (run [.msg, .copy 0 [255, 3, 1], .end_ 0, .copy 0 (encMsg [(1, encBool true)])]).2 =
+    [.ok, .ok, .ok, .err .closed] := by
+  decide
 
 end SpecVerif.C12
